@@ -19,10 +19,17 @@ import (
 	"sort"
 	"strings"
 
+	"bufio"
+	"context"
+	"github.com/prometheus/client_golang/prometheus"
 	"github.com/resonatehq/resonate/internal/aio"
 	"github.com/resonatehq/resonate/internal/app/plugins/poll"
+	"github.com/resonatehq/resonate/internal/metrics"
 	"github.com/resonatehq/resonate/pkg/message"
 	"github.com/resonatehq/resonate/verifharness/internal/lean"
+	"net/http"
+	"net/url"
+	"time"
 )
 
 type M = map[string]any
@@ -448,6 +455,99 @@ func busyPhase(trials int) (M, int) {
 	return nil, checked
 }
 
+// httpPhase: the REAL plugin (poll.New + Start: HTTP server, handler, worker) with real HTTP clients.  A listener that
+// connects as /<group>/<id> — group and id percent-encoded on the wire where the characters need it — is the listener
+// addressed by {"group": group, "id": id}: an invocation addressed to it arrives on ITS stream (a second listener of the
+// group is connected as a decoy) and is reported delivered, and a notification reaches exactly it.
+func httpPhase() (M, int) {
+	p, err := poll.New(nil, metrics.New(prometheus.NewRegistry()), &poll.Config{Size: 100, BufferSize: 100, MaxConnections: 100, Addr: "127.0.0.1:0", Timeout: 2 * time.Second})
+	if err != nil {
+		return M{"harness": err.Error()}, 0
+	}
+	errs := make(chan error, 4)
+	if err := p.Start(errs); err != nil {
+		return M{"harness": err.Error()}, 0
+	}
+	defer func() { _ = p.Stop() }()
+	checked := 0
+	type stream struct {
+		lines chan string
+		close func()
+	}
+	connect := func(group, id string) (*stream, error) {
+		u := "http://" + p.Addr() + "/" + url.PathEscape(group) + "/" + url.PathEscape(id)
+		ctx, cancel := context.WithCancel(context.Background())
+		req, _ := http.NewRequestWithContext(ctx, "GET", u, nil)
+		res, err := http.DefaultClient.Do(req)
+		if err != nil {
+			cancel()
+			return nil, err
+		}
+		if res.StatusCode != 200 {
+			cancel()
+			return nil, fmt.Errorf("status %d", res.StatusCode)
+		}
+		st := &stream{lines: make(chan string, 64), close: func() { cancel(); res.Body.Close() }}
+		go func() {
+			sc := bufio.NewScanner(res.Body)
+			for sc.Scan() {
+				if l := sc.Text(); strings.HasPrefix(l, "data: ") {
+					st.lines <- strings.TrimPrefix(l, "data: ")
+				}
+			}
+			close(st.lines)
+		}()
+		return st, nil
+	}
+	recv := func(st *stream, d time.Duration) (string, bool) {
+		select {
+		case l, ok := <-st.lines:
+			return l, ok
+		case <-time.After(d):
+			return "", false
+		}
+	}
+	for i, id := range []string{"plain", "worker 1", "100%", "a/b", "caf\u00e9", "x+y", "q?r#s"} {
+		group := []string{"g", "g 2", "g"}[i%3]
+		target, err := connect(group, id)
+		if err != nil {
+			return M{"harness": "connect: " + err.Error()}, checked
+		}
+		decoy, err := connect(group, "decoy")
+		if err != nil {
+			target.close()
+			return M{"harness": "connect: " + err.Error()}, checked
+		}
+		time.Sleep(30 * time.Millisecond) // both registrations have reached the worker
+		addr, _ := json.Marshal(M{"group": group, "id": id})
+		for _, typ := range []message.Type{message.Invoke, message.Notify} {
+			body := fmt.Sprintf("%s-%d", typ, i)
+			done := make(chan bool, 1)
+			if !p.Enqueue(&aio.Message{Type: typ, Data: addr, Body: []byte(body), Done: func(ok bool, err error) { done <- ok }}) {
+				return M{"harness": "the plugin queue is full"}, checked
+			}
+			ok := false
+			select {
+			case ok = <-done:
+			case <-time.After(3 * time.Second):
+			}
+			got, arrived := recv(target, 800*time.Millisecond)
+			stray, strayed := recv(decoy, 50*time.Millisecond)
+			if !ok || !arrived || got != body || strayed {
+				target.close()
+				decoy.close()
+				return M{"what": "a message addressed to a connected listener did not reach that listener", "property_violation": true,
+					"diff": fmt.Sprintf("listener connected as /%s/%s (group %q, id %q) with a second listener %q in the group; a %s message addressed to {group %q, id %q} was reported delivered=%v, reached the addressed stream: %v (%q), reached the other stream: %v (%q)", url.PathEscape(group), url.PathEscape(id), group, id, "decoy", typ, group, id, ok, arrived, got, strayed, stray)}, checked
+			}
+			checked++
+		}
+		target.close()
+		decoy.close()
+		time.Sleep(30 * time.Millisecond)
+	}
+	return nil, checked
+}
+
 func main() {
 	seed := flag.Int64("seed", 1, "")
 	nscripts := flag.Int("scripts", 50, "")
@@ -612,6 +712,23 @@ func main() {
 			info["harness"] = nil
 			delete(info, "harness")
 			b, _ := json.MarshalIndent(M{"harness": "polldiff", "phase": "busy-worker", "result": info, "origin": fmt.Sprintf("busy-worker phase, %d trials", *busy)}, "", " ")
+			os.WriteFile(path, b, 0o644)
+			summary["disagreements"] = 1
+			summary["divergence_file"] = path
+			summary["divergence"] = info["what"]
+			summary["diff"] = fmt.Sprint(info["diff"])
+			summary["property_violation"] = true
+		}
+	}
+	if *replay == "" && summary["disagreements"] == 0 {
+		info, n := httpPhase()
+		totals["http_listener_messages"] = n
+		if info != nil && info["harness"] != nil {
+			summary["disagreements"] = 1
+			summary["divergence"] = "harness: " + fmt.Sprint(info["harness"])
+		} else if info != nil {
+			path := filepath.Join(*work, "polldiff-divergence.json")
+			b, _ := json.MarshalIndent(M{"harness": "polldiff", "phase": "http", "result": info, "origin": "http phase"}, "", " ")
 			os.WriteFile(path, b, 0o644)
 			summary["disagreements"] = 1
 			summary["divergence_file"] = path
